@@ -39,7 +39,20 @@ def run_enum(binary, specs, what):
         want = expected_outcomes(kind, n, k)
         vals = sorted(set(counts.values()))
         if len(counts) != want or len(vals) != 1:
+            # The grid is only a faithful image of uniformly distributed draws for samplers of the multiply-shift family (harness/enumr.rs).
+            # Before the non-uniform counts are reported as a failing input they are confirmed by a model-free frequency test under a real
+            # generator on the same operation; if that test finds nothing, the grid does not fit this implementation: inconclusive.
+            from .stat_oracle import judge
+            hint = spec[5] if len(spec) > 5 else None
+            samples = max(200000, 20000 * want)
+            sreq = "stat kind=%s n=%d k=%d samples=%d seed=%d" % (kind, n, k, samples, 0x9E3779B97F4A7C15 ^ (n * 1000003 + k)) + (" hint=%s" % hint if hint else "")
+            rc2, sres, err2 = C.run_lines(binary, ["run"], [sreq], timeout=3600)
+            confirmed = bool(sres) and "=" in sres[0] and judge(kind, n, k, sres[0]) is not None
+            if not confirmed:
+                yield {"kind": "note", "text": "%s: counts over the draw grid are not uniform (%s) but a frequency test on %d samples under a real generator finds no deviation: "
+                                               "the grid does not represent uniform draws for this implementation - enumeration inconclusive" % (req, vals[:4], samples)}
+                continue
             yield {"kind": "oracle", "build": "dev", "request": req, "impl": out[:600], "model": "",
-                   "oracle": "outcome counts over the complete draw space (grid %d^%d, exact when every index range divides %d) are not uniform: %d distinct outcomes (expected %d), counts %s"
-                             % (grid, draws, grid, len(counts), want, vals[:6])}
+                   "oracle": "outcome counts over the complete draw space (grid %d^%d, exact when every index range divides %d) are not uniform: %d distinct outcomes (expected %d), counts %s; confirmed by a frequency test under a real generator (%s)"
+                             % (grid, draws, grid, len(counts), want, vals[:6], sreq)}
     yield {"kind": "count", "what": what, "n": total}
